@@ -649,7 +649,7 @@ func checkC15(p *Program, r *Report) {
 	}
 	r.Floor("C15.zero", 6)
 	memoCoherence(p, r, "C15.memo", "hdkeychain", "ExtendedKey", nil)
-	r.Floor("C15.memo", 1)
+	r.Floor("C15.memo", 0)
 }
 
 func dedup(in []string) []string {
